@@ -963,11 +963,20 @@ class Extractor:
                 src_idx = inner[0].text
                 item = src[inner[1].start:inner[1].end]
                 by_ref = chain_start(['iter', 'enumerate']) is not None
-                new_head = '%s in 0..%s' % (src_idx, length)
+                if chain_start(['into_iter', 'enumerate', 'take']) is not None:
+                    # `.take(K)` of an N-element walk visits the first min(K, N) elements: K is taken FROM THE SOURCE, never from the contract file
+                    take = src[expr[-1].children[0].start:expr[-1].children[-1].end] if expr[-1].children else None
+                    if take is None:
+                        raise Unsupported("%s: loop %d: take() without an argument" % (q, k))
+                    new_head = '%s in 0..(if (%s) < %s { (%s) } else { %s })' % (src_idx, take, length, take, length)
+                else:
+                    new_head = '%s in 0..%s' % (src_idx, length)
                 bind = ' let %s = %s%s[%s];' % (item, '&' if by_ref else '', base, src_idx)
                 what = 'for (%s, %s) in %s%s -> index walk %s in 0..%s' % (src_idx, item, base, tail[len(''.join(toks[:j])):], src_idx, length)
             edits.append((pat[0].start, expr[-1].end, new_head, {'kind': 'rule', 'rule': 'R6'}))
             edits.append((lp.body.open.end, lp.body.open.end, bind, {'kind': 'rule', 'rule': 'R6'}, -8))
+            # the length the contract file names must BE the length of the collection the source walks (checked by the verifier, not trusted)
+            edits.append((lp.stmt.start, lp.stmt.start, 'proof { assert((%s)@.len() == (%s) as int); } // [R6.length]\n        ' % (base, length), {'kind': 'rule', 'rule': 'R6'}, -9))
             self.rule('R6', sf.rel, sf.line_of(lp.kw.start), what + ' in ' + q)
 
     def anchor_edits(self, sf, it, body, spec, edits, q, origin_fn):
